@@ -11,6 +11,12 @@ import (
 	"golang.org/x/tools/go/ssa"
 )
 
+type pendingAssert struct {
+	c   Bool
+	id  string
+	pos string
+}
+
 type dec struct {
 	d, n   int
 	forced bool
@@ -62,6 +68,9 @@ type M struct {
 	depth      int
 	merging    int // >0 while exploring a pure callee for merging
 	mergeBorn  int
+	pending    []pendingAssert
+	stack      []*ssa.Function
+	errStack   []string
 	mg         *mergeCtx
 	seqCounter map[string]int
 	replayVals map[string]string // replay mode: pinned model values
@@ -78,6 +87,7 @@ type stats struct {
 	coverReach                       map[string]int64
 	funcs                            map[string]int64
 	lines                            map[string]map[int]bool
+	blocks                           map[*ssa.BasicBlock]bool
 	viols                            []*violation
 	violSeen                         map[string]int
 	inconclusive                     []string
@@ -94,7 +104,7 @@ type stats struct {
 }
 
 func newStats() *stats {
-	return &stats{assertReach: map[string]int64{}, coverReach: map[string]int64{}, funcs: map[string]int64{}, lines: map[string]map[int]bool{},
+	return &stats{assertReach: map[string]int64{}, coverReach: map[string]int64{}, funcs: map[string]int64{}, lines: map[string]map[int]bool{}, blocks: map[*ssa.BasicBlock]bool{},
 		violSeen: map[string]int{}, knownHits: map[string]string{}, bounds: map[string]int{}, pathEnds: map[string]int64{}}
 }
 
@@ -127,6 +137,9 @@ func (s *stats) merge(o *stats) {
 	}
 	for k, v := range o.pathEnds {
 		s.pathEnds[k] += v
+	}
+	for b := range o.blocks {
+		s.blocks[b] = true
 	}
 	for f, ls := range o.lines {
 		if s.lines[f] == nil {
@@ -187,11 +200,17 @@ func (m *M) resetPath(prefix []dec) {
 	m.depth = 0
 	m.merging = 0
 	m.seqCounter = map[string]int{}
+	m.stack = m.stack[:0]
+	m.errStack = nil
+	m.pending = nil
 }
 
 func (m *M) suppressed() bool { return m.liveDec >= 0 && len(m.taken) <= m.liveDec }
 
 func (m *M) assume(t string) {
+	if len(m.pending) > 0 {
+		m.flushAsserts()
+	}
 	m.trail = append(m.trail, t)
 	if m.suppressed() {
 		return
@@ -201,6 +220,9 @@ func (m *M) assume(t string) {
 
 // recordDecision appends d; for non-forced decisions it manages the solver frame and asserts cond (may be "").
 func (m *M) recordDecision(d dec, cond string) {
+	if len(m.pending) > 0 {
+		m.flushAsserts()
+	}
 	k := len(m.taken)
 	m.taken = append(m.taken, d)
 	if d.forced {
@@ -423,6 +445,46 @@ func (m *M) assertCond(c Bool, id string, pos string, knownID string, knownCond 
 		return
 	}
 	m.st.assertReach[id]++
+	if knownID == "" || !m.P.known[knownID] {
+		// batched: decided together with the other assertions made before the next decision or assumption
+		m.pending = append(m.pending, pendingAssert{c, id, pos})
+		return
+	}
+	m.flushAsserts()
+	m.decideAssert(c, id, pos, knownID, knownCond)
+}
+
+// flushAsserts decides the pending assertions: one query for their conjunction, individual queries only if it fails.
+func (m *M) flushAsserts() {
+	p := m.pending
+	m.pending = nil
+	if len(p) == 0 {
+		return
+	}
+	if len(p) > 1 {
+		parts := make([]string, len(p))
+		for i, a := range p {
+			parts[i] = a.c.t
+		}
+		neg := "(not (and " + strings.Join(parts, " ") + "))"
+		m.st.verdictQueries++
+		r := m.check(neg)
+		m.crossCheck(neg, r)
+		if r == resUnsat {
+			m.st.verdictUnsat++
+			for range p {
+				m.taken = append(m.taken, dec{d: 0, n: 2, forced: true})
+			}
+			return
+		}
+		m.st.verdictQueries-- // decided individually below
+	}
+	for _, a := range p {
+		m.decideAssert(a.c, a.id, a.pos, "", Bool{})
+	}
+}
+
+func (m *M) decideAssert(c Bool, id string, pos string, knownID string, knownCond Bool) {
 	m.st.verdictQueries++
 	neg := "(not " + c.t + ")"
 	if knownID != "" && m.P.known[knownID] {
@@ -437,18 +499,19 @@ func (m *M) assertCond(c Bool, id string, pos string, knownID string, knownCond 
 	switch r {
 	case resUnsat:
 		m.st.verdictUnsat++
-		m.recordDecision(dec{d: 0, n: 2, forced: true}, "")
+		m.taken = append(m.taken, dec{d: 0, n: 2, forced: true})
 	case resSat:
 		m.report("assert", id, "counterexample", pos, neg, "")
 		// continue under the assumption that the assertion held, if possible
 		if m.check(c.t) != resSat {
 			panic(pathEnd{"after-violation"})
 		}
-		m.recordDecision(dec{d: 1, n: 2, forced: true}, "")
-		m.assume(c.t)
+		m.taken = append(m.taken, dec{d: 1, n: 2, forced: true})
+		m.trail = append(m.trail, c.t)
+		m.sol.assert(c.t)
 	default:
 		m.st.inconclusive = append(m.st.inconclusive, "verdict query unknown for "+id)
-		m.recordDecision(dec{d: 0, n: 2, forced: true}, "")
+		m.taken = append(m.taken, dec{d: 0, n: 2, forced: true})
 	}
 }
 
